@@ -86,7 +86,7 @@ theorem ack_enabled (s : St) (mid : Nat) (hm : mid ∈ s.owedAck) (id seq : Nat)
 
 /-- a message inside a container is acknowledged like any other: processing a container owes an ack for
 each member with an odd seq_no -/
-example : (process {} 100 2 (.cont [(92, 1, .quiet), (96, 3, .odd), (98, 4, .quiet)])).owedAck = [92, 96] := by
+example : (process 0 {} 100 2 (.cont [(92, 1, .quiet), (96, 3, .odd), (98, 4, .quiet)])).owedAck = [92, 96] := by
   decide +kernel
 
 /-! ## non-vacuity -/
